@@ -9,6 +9,7 @@ for things that run in a worker thread).  Nothing here predicts anything: the mo
 import asyncio
 import gc
 import threading
+import time as time_mod
 from concurrent.futures import Executor, ThreadPoolExecutor
 from concurrent.futures import Future as CFuture
 
@@ -111,8 +112,18 @@ def setup(opts):
         w = who()
         st = CUR.setdefault("exec", {})
         st[w] = 1 - st.get(w, 0)
-        log(w, "exec.begin" if st[w] else "exec.end")
-        return asyncio.get_running_loop().time()
+        wc = CUR.get("wall")
+        if wc is None:
+            log(w, "exec.begin" if st[w] else "exec.end")
+            return asyncio.get_running_loop().time()
+        # scripted wall clock (see WallClock): the reading is part of the log entry (c_eff / the oracles ignore it)
+        v = wc.read()
+        log(w, "exec.begin" if st[w] else "exec.end", float(v).hex())
+        if st[w]:
+            wc.begin(w)          # what happens to the host's clock while this execution is under way
+        else:
+            wc.end(w)
+        return v
     rmod.time = vtime
 
     orig_pl = tmsg.TaskiqMessage.parse_labels
@@ -124,6 +135,56 @@ def setup(opts):
             log(who(), "parse.fail")
             raise
     tmsg.TaskiqMessage.parse_labels = parse_labels
+
+
+class WallClock:
+    """the host's wall clock (time.time()) as the code under test reads it - NOT the loop clock: the loop's monotonic
+    virtual time goes on driving sleeps and wait_for, the wall clock is `loop time + offset` and can be stepped.
+    spec = case["wall"]: base = reading when the run starts (mono0 = what the loop clock reads then); plan: msgs[w]["wall"] = what happens to the clock right after
+    the execution of message w began (the begin reading is taken, the rest of the execution - dependency resolution, the
+    body, the end reading - sees the changed clock):
+      {"step": s}     the clock jumps by s seconds; s < 0 = backwards (NTP step correction, VM resume, `date -s`)
+      {"set": v}      the clock is set to the absolute value v and goes on running
+      {"freeze": 1}   the clock stands still until this execution's end reading has been taken (equal readings)
+    The clock is host-wide: executions running concurrently see each other's steps.  Nothing here says what the code
+    under test should do with the readings."""
+
+    def __init__(self, loop, spec, msgs):
+        self.loop = loop
+        self.off = float(spec.get("base", 0.0)) - loop.time()
+        self.plan = {i: M.get("wall") for i, M in enumerate(msgs) if M.get("wall")}
+        self.frozen = set()
+        self.fval = 0.0
+
+    def read(self):
+        if self.frozen:
+            return self.fval
+        return self.loop.time() + self.off
+
+    def _set(self, v):
+        v = float(v)
+        if self.frozen:
+            self.fval = v
+        self.off = v - self.loop.time()
+
+    def begin(self, w):
+        op = self.plan.get(w)
+        if not op:
+            return
+        if "step" in op:
+            self._set(self.read() + op["step"])
+        elif "set" in op:
+            self._set(op["set"])
+        elif op.get("freeze"):
+            if not self.frozen:
+                self.fval = self.read()
+            self.frozen.add(w)
+
+    def end(self, w):
+        if w in self.frozen:
+            self.frozen.discard(w)
+            if not self.frozen:
+                self.off = self.fval - self.loop.time()
 
 
 class RecFormatter(ProxyFormatter):
@@ -159,7 +220,8 @@ class RecBackend(AsyncResultBackend):
             log(w, "save.stale", task_id)
             return
         p = CUR["plan"][w]
-        log(w, "save.enter", task_id, result.is_err, result.return_value, excid(result.error), canon(result.labels))
+        log(w, "save.enter", task_id, result.is_err, result.return_value, excid(result.error), canon(result.labels),
+            float(result.execution_time).hex())
         await susp(p.get("save_susp"))
         if not p.get("save_ok", True):
             log(w, "save.raise")
@@ -619,8 +681,8 @@ class _ScriptedExecutor(Executor):
         return cf
 
 
-def run_on_loop(coro_fn):
-    loop = PLoop(0)
+def run_on_loop(coro_fn, start_us=0):
+    loop = PLoop(start_us)
     asyncio.set_event_loop(loop)
     try:
         return loop.run_until_complete(coro_fn(loop))
@@ -705,6 +767,12 @@ def run_recv(case):
         broker = ScriptedBroker()
         mws = make_mws(case["mws"], tbl)
         CUR.update(broker=broker, mws=mws, plan={i: M for i, M in enumerate(msgs)}, exec={}, sending=False)
+        if case.get("wall"):
+            # the wall clock of taskiq.receiver.receiver (and, scope = global, of every module that reads time.time() at
+            # call time) is scripted and may step backwards / forwards while executions are under way
+            CUR["wall"] = WallClock(loop, case["wall"], msgs)
+            if case["wall"].get("scope") == "global":
+                time_mod.time = CUR["wall"].read
         style = late.get("style", "assign")
         nb = late.get("mws_before", len(mws)) if late else len(mws)
 
@@ -824,7 +892,12 @@ def run_recv(case):
         from taskiq import InMemoryBroker
         cli_kw = cli_glue.receiver_kwargs_via_cli(case["cli"], InMemoryBroker())
     _CLI["kw"] = cli_kw
-    lg, end = run_on_loop(main)
+    real_time = time_mod.time
+    try:
+        # origin of the loop's monotonic clock (arbitrary on a real host: seconds since boot)
+        lg, end = run_on_loop(main, int(float((case.get("wall") or {}).get("mono0", 0)) * 1_000_000))
+    finally:
+        time_mod.time = real_time
     return {"log": lg, "end_us": end}
 
 
